@@ -194,6 +194,14 @@ def corpus(d):
             'allocations': {}, 'project_id': 'proj-new',
             'user_id': 'user-new', 'consumer_generation': None,
             'consumer_type': 'INSTANCE'})
+    import copy as _copy
+    base = ops[('POST', '/reshaper')]
+    body = _copy.deepcopy(base['body'])
+    body['allocations'][K1].update({'project_id': 'proj-reshaped',
+                                    'user_id': 'user-reshaped',
+                                    'consumer_type': 'RESHAPED'})
+    out['POST /reshaper also changing a consumer\'s project, user and type'] \
+        = Req('POST', '/reshaper', v, body, roles='service')
     out['PUT aggregates new + known'] = Req(
         'PUT', '/resource_providers/%s/aggregates' % R, v, {
             'resource_provider_generation': g[R],
